@@ -216,17 +216,25 @@ impl AST {
                     }
                     BinaryExprType::AND => {
                         Self::translate_expr(*def.left, ops, root);
-                        ops.push(Op::Noop, def.pos);
+                        ops.push(Op::Noop, def.pos.clone());
                         let idx = ops.len() - 1;
                         Self::translate_expr(*def.right, ops, root);
+                        // Both sides must be boolean. The double negation
+                        // type checks the right side and leaves it unchanged.
+                        ops.push(Op::Not, def.pos.clone());
+                        ops.push(Op::Not, def.pos);
                         let jptr = (ops.len() - 1 - idx) as i32;
                         ops.replace(idx, Op::And(jptr));
                     }
                     BinaryExprType::OR => {
                         Self::translate_expr(*def.left, ops, root);
-                        ops.push(Op::Noop, def.pos); // Placeholder
+                        ops.push(Op::Noop, def.pos.clone()); // Placeholder
                         let idx = ops.len() - 1;
                         Self::translate_expr(*def.right, ops, root);
+                        // Both sides must be boolean. The double negation
+                        // type checks the right side and leaves it unchanged.
+                        ops.push(Op::Not, def.pos.clone());
+                        ops.push(Op::Not, def.pos);
                         let jptr = (ops.len() - 1 - idx) as i32;
                         ops.replace(idx, Op::Or(jptr));
                     }
